@@ -28,7 +28,9 @@ package ledger
 //                                                 verification hashes of the state after it     → ok <rows>
 //   run <name> mal=<MaxAcctLookback> cfg=<text> ev=<events>   events: b (block added) c<t> (commit requested up to
 //                                                 t, post-commit work done) X<t> (commit up to t, crash before the
-//                                                 post-commit work, recovery) r (restart)
+//                                                 post-commit work, recovery) r (restart); the commit that
+//                                                 trackerRegistry.replay performs itself at the end of a (re)load is
+//                                                 recorded as a c<t> event after the r / X
 //                                                 → labels=<round>:<label>,…   every label the ledger created, in order
 // rows:  A <addr> <updateRound> <rewardsBase> <enc> | R <a|p> <addr> <cidx> <updateRound> <enc> | K <key> <value>
 // keys:  A <addr> | R <addr> <cidx> | K <key>
@@ -959,7 +961,7 @@ func vc14RunCase(t *testing.T, out *vh.Out, c vc14Case) {
 
 func vc14Generate() []vc14Case {
 	r := vh.NewRng(vh.Seed() + 1400)
-	n := vh.Budget(2, 12)
+	n := vh.Budget(2, 30)
 	var cs []vc14Case
 	for i := 0; i < n; i++ {
 		interval := uint64(4 + r.Intn(5))
